@@ -551,6 +551,38 @@ def probes(seed):
             rec("Determinism", f"preprocess.{fname}(seed=k)", "seeded-simulation-independent-of-global-rng", len(set(outs)) == 1)
     except Exception as e:
         rec("Determinism", "seeded noise helpers", "no-exception-in-determinism-probe", False, note=f"{type(e).__name__}: {str(e)[:80]}")
+    # factories return independent objects: scribbling on what a first call returned (the caller's own object) must not
+    # change what an identical second call returns
+    fmask = aa.Mask2D(mask=mk.copy(), pixel_scales=(1.0, 0.5), origin=(0.5, -1.0))
+    factories = [
+        ("Grid2D.uniform", lambda: aa.Grid2D.uniform(shape_native=(3, 5), pixel_scales=(1.0, 0.5), origin=(0.5, -1.0))),
+        ("Mask2D.derive_grid.all_false", lambda: fmask.derive_grid.all_false),
+        ("Mask2D.derive_grid.unmasked", lambda: fmask.derive_grid.unmasked),
+        ("Grid2D.from_mask", lambda: aa.Grid2D.from_mask(mask=fmask)),
+        ("Array2D.full", lambda: aa.Array2D.full(fill_value=2.5, shape_native=(3, 4), pixel_scales=1.0)),
+        ("Array2D.ones", lambda: aa.Array2D.ones(shape_native=(3, 4), pixel_scales=1.0)),
+        ("Mask2D.all_false", lambda: aa.Mask2D.all_false(shape_native=(3, 4), pixel_scales=1.0)),
+        ("Mask2D.circular", lambda: aa.Mask2D.circular(shape_native=(7, 7), pixel_scales=1.0, radius=2.2)),
+        ("Kernel2D.no_blur", lambda: aa.Kernel2D.no_blur(pixel_scales=1.0)),
+        ("Mesh2DRectangular.overlay_grid", lambda: aa.Mesh2DRectangular.overlay_grid(grid=np.array(aa.Grid2D.from_mask(mask=fmask)), shape_native=(3, 3))),
+        ("Mask2D.derive_indexes.native_for_slim", lambda: fmask.derive_indexes.native_for_slim),
+        ("Mask2D.derive_mask.edge", lambda: fmask.derive_mask.edge),
+        ("OverSamplerUniform.over_sampled_grid", lambda: aa.OverSamplerUniform(mask=fmask, sub_size=2).over_sampled_grid),
+        ("Grid1D.uniform_from_zero", lambda: aa.Grid1D.uniform_from_zero(shape_native=(5,), pixel_scales=0.5)),
+    ]
+    for name, f in factories:
+        try:
+            first = f()
+            want = canon(first)
+            arr = getattr(first, "_array", first)
+            if isinstance(arr, np.ndarray) and arr.flags.writeable and arr.size:
+                if arr.dtype == bool:
+                    arr[...] = ~arr
+                else:
+                    arr[...] = arr * 0 + 7
+            rec("Determinism", f"{name}: second identical call after the first result was edited in place", "equal-inputs-give-identical-results", canon(f()) == want)
+        except Exception as e:
+            rec("Determinism", name, "no-exception-in-determinism-probe", False, note=f"{type(e).__name__}: {str(e)[:80]}")
     # repeating a computation with equal inputs gives identical results (two cold builds of every scenario agree)
     for nm, cls in SCENARIOS.items():
         s = cls()
